@@ -15,6 +15,8 @@ ST = "sktime/forecasting/compose/_stack.py"
 EN = "sktime/forecasting/compose/_ensemble.py"
 BM = "sktime/base/_meta.py"
 DP = "sktime/utils/data_processing.py"
+IO = "sktime/utils/data_io.py"
+DB = "sktime/datasets/base.py"
 MUTANTS = [
  ("C01", "get_end_plus1", S, "end = n_timepoints - fh_max + 1", "end = n_timepoints - fh_max + 2"),
  ("C01", "sliding_test_shift", S, "            train = np.arange(split_point - window_length, split_point)\n            test = split_point + fh - 1", "            train = np.arange(split_point - window_length, split_point)\n            test = split_point + fh"),
@@ -98,4 +100,10 @@ MUTANTS = [
  ("C15", "nested_to_2d_uses_first_col_len", DP, "            Xt = np.hstack([X.iloc[:, i].tolist() for i in range(X.shape[1])])", "            Xt = np.hstack([X.iloc[:, i].tolist() for i in range(X.shape[1])][::-1]) if X.shape[1] == 3 else np.hstack([X.iloc[:, i].tolist() for i in range(X.shape[1])])"),
  ("C15", "is_nested_first_col_only", DP, "        is_nested = are_columns_nested(X).any()", "        is_nested = are_columns_nested(X)[-1]"),
  ("C15", "check_x_coerce_ignored", "sktime/utils/validation/panel.py", "        if coerce_to_numpy:\n            X = from_nested_to_3d_numpy(X)", "        if coerce_to_numpy and X.shape[1] > 1:\n            X = from_nested_to_3d_numpy(X)"),
+ ("C18", "writer_precision_loss", IO, "                .to_string(index=False, header=False, na_rep=missing_values)", "                .round(2).to_string(index=False, header=False, na_rep=missing_values)"),
+ ("C18", "split_order_swapped", DB, '        for split in ("train", "test"):\n            fname = name + "_" + split.upper() + ".ts"\n            abspath = os.path.join(local_module, local_dirname, name, fname)\n            result', '        for split in ("test", "train"):\n            fname = name + "_" + split.upper() + ".ts"\n            abspath = os.path.join(local_module, local_dirname, name, fname)\n            result'),
+ ("C18", "frame_labels_reindexed", DB, '            y = pd.concat([y, pd.Series(result[1])])', '            y = pd.concat([y, pd.Series(result[1])], ignore_index=True)'),
+ ("C18", "class_tag_fix_reverted", IO, '        file.write("@classLabel false\\n")', '        file.write("@class_label false\\n")'),
+ ("C18", "tsv_columns_shift", IO, "    df.columns -= 1\n", "    df.columns -= 1\n    df = df.iloc[:, ::-1] if len(df) == 36 else df\n"),
+ ("C18", "writer_drops_last_value_long_series", IO, '            series = ",".join(obsv for obsv in series)', '            series = ",".join(obsv for obsv in (series if len(series) < 9 else series[:-1]))'),
 ]
